@@ -97,6 +97,7 @@ func (r *Runner) Step(line string) {
 		return
 	}
 	r.Script = append(r.Script, line)
+	defer r.checkOrder()
 	w := strings.Fields(line)
 	r.Run.Count("step " + w[0])
 	n := func(i int) int { v, _ := strconv.Atoi(w[i]); return v }
@@ -248,8 +249,22 @@ func (r *Runner) Step(line string) {
 		}
 		if r.g1park.Kind == "timer" { // retry after a failed sync
 			r.g1park.Resume(nil)
-			e, ok := r.expect(r.St.G1Ev, "datasync")
+			e, ok := r.expect(r.St.G1Ev, "datasync", "sw-begin")
 			if !ok {
+				return
+			}
+			if e.Kind == "sw-begin" {
+				// the syncer gave up on the failed data sync and went on to NotifySyncCompleted
+				if r.checkOrder() {
+					e.tryResume(nil)
+					return
+				}
+				if r.Model != nil {
+					r.fail("disagreement", "the syncer does not retry a failed data sync", "next gate: "+e.Kind)
+					return
+				}
+				r.g1pc, r.g1park = "want", nil
+				r.swBegun(1, e)
 				return
 			}
 			r.g1park = &e
@@ -283,6 +298,10 @@ func (r *Runner) Step(line string) {
 		}
 		if e.Kind != "timer" {
 			// the syncer carries on although the data sync failed
+			if e.Kind == "sw-begin" && r.checkOrder() {
+				e.tryResume(nil)
+				return
+			}
 			if r.Model != nil {
 				r.fail("disagreement", "the syncer does not retry a failed data sync", "next gate: "+e.Kind)
 				return
